@@ -376,18 +376,62 @@ class Plain:
     pass
 
 
-def non_iterable(which: int, tkind: int, x: int) -> bool:
+def non_iterable(which: int, tkind: int, via: int, x: int) -> bool:
+    """a non-iterable value to fold over -- the target itself, or what the sub-spec produced from it -- raises FoldError,
+    falsy values (None, 0, 0.0, False) included; only an (empty) ITERABLE gives init()"""
     start()
-    t = [x, None, Plain(), 1.5][tkind]
-    spec = [Sum(), Flatten(), Merge(), Fold(T, init=int), Flatten(init='lazy'), Count()][which]
+    tkind, via, which = concretize(tkind, 0, 7), concretize(via, 0, 2), concretize(which, 0, 5)
+    from vkit.common import OUT as _OUT
+    if _OUT in (tkind, via, which):
+        return True
+    t = [x, None, Plain(), 1.5, 0, 0.0, False, True][tkind]
+    if via == 0:
+        spec, tgt = [Sum(), Flatten(), Merge(), Fold(T, init=int), Flatten(init='lazy'), Count()][which], t
+    elif via == 1:
+        spec, tgt = [Sum('n'), Flatten('n'), Merge('n'), Fold('n', init=int), Flatten('n', init='lazy'), Count()][which], {'n': t}
+        if which == 5:
+            spec = ('n', Count())
+    else:
+        spec, tgt = [Sum(T['n']), Flatten(T['n']), Merge(T['n']), Fold((T['n'],), init=list), Flatten(T['n'], init='lazy'), Count()][which], {'n': t}
+        if which == 5:
+            return True
     try:
-        got = glom(t, spec, glom_debug=True)
+        got = glom(tgt, spec, glom_debug=True)
+        if which == 4:
+            got = list(got)
     except FoldError:
         reach('folderror')
         return True
     except Exception as e:
         return fail(why='wrong error class', e=e)
-    return fail(why='expected FoldError', got=got)
+    return fail(why='expected FoldError', got=got, t=t, via=via, which=which)
+
+
+def flatten_mixed(k0: int, k1: int, k2: int, n: int, init: int, x: int) -> bool:
+    """Flatten with elements of MIXED iterable types: the eager result is exactly functools.reduce(operator.iadd, items, init())
+    -- tuple += list is a TypeError, list += tuple extends -- and the lazy one is chain.from_iterable"""
+    start()
+    k0, k1, k2, n, init = concretize(k0, 0, 4), concretize(k1, 0, 4), concretize(k2, 0, 4), concretize(n, 1, 3), concretize(init, 0, 2)
+    x = concretize(x, 0, 1)              # the element VALUES are immaterial here (hashed as dict keys): finite domain
+    from vkit.common import OUT as _OUT
+    if _OUT in (k0, k1, k2, n, init, x):
+        return True
+
+    def elem(k, i):
+        return [(x + i,), [x + i], 'ab', {x + i: 1}, ()][k]
+    items = [elem(k, i) for i, k in enumerate([k0, k1, k2][:n])]
+    mk = [list, tuple, 'lazy'][init]
+    if init == 2:
+        exp = run_(lambda: list(itertools.chain.from_iterable(items)))
+        got = run_(lambda: list(glom(list(items), Flatten(init='lazy'), glom_debug=True)))
+    else:
+        exp = run_(lambda: functools.reduce(operator.iadd, [copy_of(i) for i in items], mk()))
+        got = run_(lambda: glom(list(items), Flatten(init=mk), glom_debug=True))
+    reach('flatten_mixed')
+    if exp[0] == 'err':
+        reach('flatten_mixed_err')
+        return (got[0] == 'err' and type(got[1]) is type(exp[1])) or fail(why='reduce(iadd) fails here, so must Flatten', got=got, exp=exp, items=items)
+    return (got[0] == 'ok' and got[1] == exp[1] and type(got[1]) is type(exp[1])) or fail(why='value', got=got, exp=exp, items=items)
 
 
 def strings(which: int, i0: int, i1: int, i2: int, n: int) -> bool:
@@ -458,7 +502,7 @@ def obligations(tier):
                 continue
             obs.append(Ob(merge_eq, fixed=fx, pre=pre, name='merge_eq_%d_n%d' % (w, n)))
     for w in range(6):
-        obs.append(Ob(non_iterable, fixed={'which': w}, pre='0 <= tkind <= 3', name='non_iterable_%d' % w))
+        obs.append(Ob(non_iterable, fixed={'which': w}, pre='0 <= tkind <= 7 and 0 <= via <= 2', name='non_iterable_%d' % w))
     for w in range(3):
         obs.append(Ob(strings, fixed={'which': w}, pre='0 <= n <= 3 and 0 <= i0 <= 3 and 0 <= i1 <= 3 and 0 <= i2 <= 3',
                       name='strings_%d' % w))
@@ -470,5 +514,8 @@ def obligations(tier):
                   name='flatten_levels_2_2'))
     obs.append(Ob(merge_eq, fixed={'which': 0, 'n': 2, 'p2': 0}, pre='0 <= p0 <= 7 and 0 <= p1 <= 7', twin='merge',
                   name='merge_eq_0_n2'))
-    obs.append(Ob(non_iterable, fixed={'which': 0}, pre='0 <= tkind <= 3', twin='folderror', name='non_iterable_0'))
+    obs.append(Ob(non_iterable, fixed={'which': 0}, pre='0 <= tkind <= 7 and 0 <= via <= 2', twin='folderror', name='non_iterable_0'))
+    for init in range(3):
+        obs.append(Ob(flatten_mixed, fixed={'init': init}, pre='0 <= k0 <= 4 and 0 <= k1 <= 4 and 0 <= k2 <= 4 and 1 <= n <= 3 and 0 <= x <= 1', name='flatten_mixed_%d' % init, timeout=150))
+    obs.append(Ob(flatten_mixed, fixed={'init': 1}, pre='0 <= k0 <= 4 and 0 <= k1 <= 4 and 0 <= k2 <= 4 and 1 <= n <= 3 and 0 <= x <= 1', twin='flatten_mixed_err', name='flatten_mixed_1'))
     return obs
